@@ -89,18 +89,18 @@ type Violation struct {
 
 // Result is what one child process reports to the driver.
 type Result struct {
-	Prop         string           `json:"prop"`
-	Tier         string           `json:"tier"`
-	Seed         uint64           `json:"seed"`
-	Batch        int              `json:"batch"`
-	Evaluations  int64            `json:"evaluations"`
-	Nontrivial   []uint64         `json:"nontrivial"`
-	Counters     map[string]int64 `json:"counters"`
-	Samples      []any            `json:"samples"`
-	Violations   []Violation      `json:"violations"`
-	Inconclusive []string         `json:"inconclusive"`
+	Prop         string            `json:"prop"`
+	Tier         string            `json:"tier"`
+	Seed         uint64            `json:"seed"`
+	Batch        int               `json:"batch"`
+	Evaluations  int64             `json:"evaluations"`
+	Nontrivial   []uint64          `json:"nontrivial"`
+	Counters     map[string]int64  `json:"counters"`
+	Samples      []any             `json:"samples"`
+	Violations   []Violation       `json:"violations"`
+	Inconclusive []string          `json:"inconclusive"`
 	Notes        map[string]string `json:"notes,omitempty"`
-	Complete     bool             `json:"complete"`
+	Complete     bool              `json:"complete"`
 }
 
 // Ctx is the per-process monitor context.
